@@ -57,13 +57,17 @@ def pushRule (m : PMatch) (op : Op) (e : PreEntry) (rules : List PreRule) : List
   else rules ++ [.mk m.rawRule m.attrs (pushItem m.key op e [])]
 
 mutual
-  /-- `make_pre(diff)` (patching.py:352-393), without the multiline branch -/
-  def makePre : List DItem → Pre
-    | ds => .mk (makePreAcc ds [])
+  /-- the loop of `make_pre(diff)` (patching.py:352-393), without the multiline branch -/
   def makePreAcc : List DItem → List PreRule → List PreRule
     | [], acc => acc
-    | .mk op row ch m :: rest, acc => makePreAcc rest (pushRule m op (.mk row (makePre ch)) acc)
+    | i :: rest, acc => makePreAcc rest (pushRule i.m i.op (entryOf i) acc)
+  /-- `{"row": row, "children": make_pre(children)}` -/
+  def entryOf : DItem → PreEntry
+    | .mk _ row ch _ => .mk row (.mk (makePreAcc ch []))
 end
+
+/-- `make_pre(diff)` -/
+def makePre (ds : List DItem) : Pre := .mk (makePreAcc ds [])
 
 /-! ### logic functions (rulebook/common.py:11-127) -/
 
@@ -315,28 +319,31 @@ def yieldsToItems (rec : PRec) (v : Vendor) (ordering : List ORule) (doCommit : 
             .ok ({ row := y.row, children := ch, rawRule := raw, direct := y.direct, order := o.order,
                    orderDirect := o.direct, parent := attrs.parent, forceCommit := attrs.forceCommit } :: more)
 
-def itemsOfRule (rec : PRec) (v : Vendor) (ordering : List ORule) (doCommit : Bool) (raw : String) (attrs : PAttrs) :
+/-- a table of logic functions: what `attrs["logic"](rule=attrs, key=key, diff=diff, …)` yields -/
+abbrev LogicFn := Vendor → PAttrs → PreItem → Except Err (List Yield)
+
+def itemsOfRule (lg : LogicFn) (rec : PRec) (v : Vendor) (ordering : List ORule) (doCommit : Bool) (raw : String) (attrs : PAttrs) :
     List PreItem → Except Err (List RawItem)
   | [] => .ok []
   | it :: rest =>
-    match runLogic v attrs it with
+    match lg v attrs it with
     | .error e => .error e
     | .ok ys =>
       match yieldsToItems rec v ordering doCommit raw attrs ys with
       | .error e => .error e
       | .ok a =>
-        match itemsOfRule rec v ordering doCommit raw attrs rest with
+        match itemsOfRule lg rec v ordering doCommit raw attrs rest with
         | .error e => .error e
         | .ok b => .ok (a ++ b)
 
-def itemsOfPre (rec : PRec) (v : Vendor) (ordering : List ORule) (doCommit : Bool) :
+def itemsOfPre (lg : LogicFn) (rec : PRec) (v : Vendor) (ordering : List ORule) (doCommit : Bool) :
     List PreRule → Except Err (List RawItem)
   | [] => .ok []
   | .mk raw attrs items :: rest =>
-    match itemsOfRule rec v ordering doCommit raw attrs items with
+    match itemsOfRule lg rec v ordering doCommit raw attrs items with
     | .error e => .error e
     | .ok a =>
-      match itemsOfPre rec v ordering doCommit rest with
+      match itemsOfPre lg rec v ordering doCommit rest with
       | .error e => .error e
       | .ok b => .ok (a ++ b)
 
@@ -350,10 +357,10 @@ def buildTree (items : List RawItem) : PTree :=
     if it.forceCommit then [main, ("commit", none, key)] else [main])
 
 /-- `make_patch` without the final `tree.sort()` (children are built, not yet sorted) -/
-def makePatchUnsorted : Nat → Vendor → Bool → PRec
+def makePatchUnsorted (lg : LogicFn) : Nat → Vendor → Bool → PRec
   | 0, _, _, _, _ => .ok (.mk [])
   | fuel + 1, v, doCommit, ordering, pre =>
-    match itemsOfPre (makePatchUnsorted fuel v doCommit) v ordering doCommit pre.rules with
+    match itemsOfPre lg (makePatchUnsorted lg fuel v doCommit) v ordering doCommit pre.rules with
     | .error e => .error e
     | .ok items => .ok (buildTree items)
 
@@ -375,8 +382,12 @@ end
 /-- `make_patch(pre, rb, hw, add_comments=False, orderer, do_commit)`: nested `tree.sort()` calls on
 already sorted children are the identity, so sorting once at the end is the same computation
 (each nested `make_patch` sorts its own tree; `sortTree` sorts every level). -/
+def makePatchWith (lg : LogicFn) (v : Vendor) (ordering : List ORule) (doCommit : Bool) (pre : Pre) : Except Err PTree :=
+  (makePatchUnsorted lg (preDepth pre + 2) v doCommit ordering pre).map sortTree
+
+/-- `make_patch` with the common logic functions of `annet.rulebook.common` -/
 def makePatch (v : Vendor) (ordering : List ORule) (doCommit : Bool) (pre : Pre) : Except Err PTree :=
-  (makePatchUnsorted (preDepth pre + 2) v doCommit ordering pre).map sortTree
+  makePatchWith runLogic v ordering doCommit pre
 
 /-! ### Orderer.order_config (patching.py:228-255) -/
 
